@@ -180,10 +180,18 @@ def child_env():
 
 
 # ------------------------------------------------------------------ minimiser
+def with_history(prefix, sc):
+    """a scenario together with the scenarios that ran before it in the same process"""
+    if not prefix:
+        return sc
+    return {"property": sc.get("property"), "sequence": list(prefix) + [sc]}
+
+
 class Minimiser:
-    def __init__(self, binary, scenario, cls, site, timeout, budget_runs=160, budget_s=90):
+    def __init__(self, binary, scenario, cls, site, timeout, budget_runs=160, budget_s=90, prefix=None):
         self.binary, self.cls, self.site, self.timeout = binary, cls, site, timeout
         self.best = scenario
+        self.prefix = prefix or []   # scenarios executed before it in the same process (a history replay)
         self.runs = 0
         self.budget_runs, self.deadline = budget_runs, time.time() + budget_s
 
@@ -191,8 +199,20 @@ class Minimiser:
         if self.runs >= self.budget_runs or time.time() > self.deadline:
             return False
         self.runs += 1
-        r = run_exec(self.binary, sc, self.timeout)
+        r = run_exec(self.binary, with_history(self.prefix, sc), self.timeout)
         return any(c == self.cls and s == self.site for c, s, _ in r["classes"])
+
+    def shrink_prefix(self):
+        """drop predecessors that the failure does not need (greedy, last to first keeps the order of the rest)"""
+        i = 0
+        while i < len(self.prefix) and self.runs < self.budget_runs and time.time() < self.deadline:
+            cand = self.prefix[:i] + self.prefix[i + 1:]
+            self.runs += 1
+            r = run_exec(self.binary, with_history(cand, self.best), self.timeout)
+            if any(c == self.cls and s == self.site for c, s, _ in r["classes"]):
+                self.prefix = cand
+            else:
+                i += 1
 
     def ddmin_list(self, get, put, min_len=0):
         """generic ddmin over a list inside the scenario"""
@@ -346,6 +366,7 @@ class Pool:
         self.infos = {}
         self.crashes = []     # (run, rc, stderr tail, kind)
         self.nondet = []
+        self.slice_of = {}   # run -> first run executed by the same process
         self.lock = threading.Lock()
         self.workers = workers
         self.stopped_early = False
@@ -396,6 +417,7 @@ class Pool:
                 _, r, js = line.split(" ", 2)
                 with self.lock:
                     self.results[int(r)] = json.loads(js)
+                    self.slice_of[int(r)] = a
                 last_end = int(r)
             elif line.startswith("INFO "):
                 _, r, js = line.split(" ", 2)
@@ -413,7 +435,7 @@ class Pool:
         r = state["begin"] if state["begin"] is not None and state["begin"] > last_end else last_end + 1
         kind = "hang" if state.get("hang") else "crash"
         with self.lock:
-            self.crashes.append((r, p.returncode, "".join(errbuf)[:60000], kind))
+            self.crashes.append((r, p.returncode, "".join(errbuf)[:60000], kind, a))
         return r + 1
 
     def run(self):
@@ -428,6 +450,11 @@ class Pool:
 def gen_scenario(binary, prop, seed, run, tier):
     r = subprocess.run([binary, "gen", prop, str(seed), str(run), tier], stdout=subprocess.PIPE, stderr=subprocess.PIPE, env=child_env())
     return json.loads(r.stdout.decode("utf-8", "replace"))
+
+
+def gen_scenarios(binary, prop, seed, first, n, tier):
+    r = subprocess.run([binary, "gen", prop, str(seed), str(first), tier, str(n)], stdout=subprocess.PIPE, stderr=subprocess.PIPE, env=child_env())
+    return [json.loads(l) for l in r.stdout.decode("utf-8", "replace").splitlines() if l.startswith("{")]
 
 
 def summarise_scenario(sc):
@@ -513,14 +540,14 @@ def check(prop, tier, seed, runs_override=None, workers=None, repo="/repo", time
                 interleavings.add(tr)
             for v in d["violations"]:
                 key = (v["class"], v["site"])
-                e = viol.setdefault(key, dict(run=r, flavour=flavour, detail=v["detail"], count=0))
+                e = viol.setdefault(key, dict(run=r, flavour=flavour, detail=v["detail"], count=0, slice=pool.slice_of.get(r, r)))
                 e["count"] += 1
-        for r, rc, err, kind in pool.crashes:
+        for r, rc, err, kind, slice_start in pool.crashes:
             cls = prop + "/" + kind
             site = crash_site(err) if kind == "crash" else "hang"
             if rc == 81:
                 cls, site = prop + "/tsan", "tsan"   # the process stopped itself after 40 ThreadSanitizer reports
-            e = viol.setdefault((cls, site), dict(run=r, flavour=flavour, detail="worker died (rc %s): %s" % (rc, summarise_stderr(err)), count=0))
+            e = viol.setdefault((cls, site), dict(run=r, flavour=flavour, detail="worker died (rc %s): %s" % (rc, summarise_stderr(err)), count=0, slice=slice_start))
             e["count"] += 1
         for r in pool.nondet:
             nondet.append((flavour, r))
@@ -591,8 +618,22 @@ def check(prop, tier, seed, runs_override=None, workers=None, repo="/repo", time
             sc = gen_scenario(binary, prop, seed, e["run"], tier)
         first = run_exec(binary, sc, cfg["timeout"])
         reproduced = any(c == cls and s == site for c, s, _ in first["classes"])
+        prefix = []
+        if not reproduced and e.get("slice") is not None and e["slice"] < e["run"] and not sc.get("cold"):
+            # The batch saw it, the scenario alone in a fresh process does not show it. Before that is called
+            # nondeterminism: the runs that the same worker process executed before it are part of the history
+            # ("answers do not depend on what else the process has built"). Replay them in front of it.
+            try:
+                prefix = gen_scenarios(binary, prop, seed, e["slice"], e["run"] - e["slice"], tier)
+            except Exception:
+                prefix = []
+            if prefix:
+                again = run_exec(binary, with_history(prefix, sc), cfg["timeout"] * 4)
+                reproduced = any(c == cls and s == site for c, s, _ in again["classes"])
+                if not reproduced:
+                    prefix = []
         if not reproduced:
-            # the batch saw it, a fresh process does not: that is nondeterminism of the machinery, not a finding
+            # neither alone nor after its predecessors: that is nondeterminism of the machinery, not a finding
             lines.append("NONDETERMINISTIC property=%s class=%s site=%s run=%d (seen in batch, not in a fresh process)" % (prop, cls, site, e["run"]))
             exit_code = max(exit_code, 2)
             continue
@@ -601,11 +642,13 @@ def check(prop, tier, seed, runs_override=None, workers=None, repo="/repo", time
             continue
         # full minimisation for the first few signatures, a lighter pass for the rest (bounded wall clock)
         n_minimised += 1
-        mini = Minimiser(binary, sc, cls, site, cfg["timeout"],
-                         budget_runs=160 if n_minimised <= 3 else 25, budget_s=90 if n_minimised <= 3 else 20)
+        mini = Minimiser(binary, sc, cls, site, cfg["timeout"] * (4 if prefix else 1),
+                         budget_runs=160 if n_minimised <= 3 else 25, budget_s=(90 if n_minimised <= 3 else 20) * (3 if prefix else 1), prefix=prefix)
         if n_minimised > 8:
             mini.budget_runs = 0
-        small = mini.run()
+        if prefix:
+            mini.shrink_prefix()
+        small = with_history(mini.prefix, mini.run())
         small["expected_class"] = cls
         small["expected_site"] = site
         small["flavour"] = e["flavour"]
